@@ -105,9 +105,41 @@ CLAIMED.update({
             "DESIGN.md 4.6, 5 (C17)", "selection"),
 })
 
+_CLI_NOTE = ("Trusted: props/_cli.py (file/argv materialisation, loader wrapping, in-process main() with captured streams), "
+             "the reference parsers used to decide validity, TLC.")
+CLAIMED.update({
+    "C13": ("model_checking",
+            "TLA+ model Cli.tla of main() (TLC: documented behaviour breaks no clause, always exits); exhaustive "
+            "enumeration of the rendering configuration space run on the real main(); runs validated by TLC (CliTrace)",
+            "The product input type (8) x output format (8+default) x mode (full/-e/-d) x look (plain/--color/--html) x "
+            "condensed x equal/different documents is enumerated completely for each document set and every point is a "
+            "real run of main(); TLC validates each recorded run against the C13 clauses of Cli.tla (no internal error, "
+            "exit status 0 or 1).", _CLI_NOTE, "DESIGN.md 4.9, 5 (C13)", "cli"),
+    "C14": ("model_checking",
+            "TLA+ model Cli.tla (type-selection rule) + Functional.tla (write-once map); TLC enumerates the "
+            "type-selection space (CliGen) replayed on the real main() with wrapped loaders; library vs command line vs "
+            "alias spellings validated by TLC (FunctionalTrace)",
+            "(c) For every point of the TLC-enumerated type-selection space (how each file's type is given x what its "
+            "name suggests, both files) the loaders the real main() invokes must be the ones Cli.tla's selection rule "
+            "names. (a)/(b) (files, resolved options) -> (stdout, exit status) must be one value across the library "
+            "pipeline and every equivalent command-line spelling.", _CLI_NOTE, "DESIGN.md 4.9, 4.11, 5 (C14)", "cli"),
+    "C20": ("fault_enumeration",
+            "fault enumeration (truncation at every byte, delimiter deletion/duplication, unbalanced brackets/tags) "
+            "filtered by reference parsers; each run of main() validated by TLC against the C20 clauses of Cli.tla",
+            "Every syntactic corruption of the corpus documents that the format's reference parser rejects is fed to "
+            "the real main() as first and as second file; TLC validates each run: non-zero exit status, nothing but "
+            "whitespace on stdout, the file named on stderr, no uncaught exception.", _CLI_NOTE,
+            "DESIGN.md 4.9, 5 (C20)", "cli"),
+})
+
 NOT_YET = "check not built yet in this round (planned: see DESIGN.md section 5)"
 
 ENGINES = [
+    {"name": "cli", "path": "spec/Cli.tla spec/CliGen.tla spec/CliTrace.tla spec/Functional.tla spec/FunctionalTrace.tla "
+                           "props/_cli.py props/c13.py props/c14.py props/c20.py harness/cli.py",
+     "serves_properties": ["C02", "C13", "C14", "C20"],
+     "kind_free_text": "TLA+ phase model of main(); TLC-enumerated configurations and enumerated faults run on the real "
+                       "command; runs validated by TLC"},
     {"name": "strings", "path": "spec/StringScript.tla spec/StringScriptGen.tla spec/StringScriptTrace.tla props/c11.py",
      "serves_properties": ["C11"], "kind_free_text": "TLA+ character-script contract with LCS oracle evaluated by TLC"},
     {"name": "selection", "path": "spec/Selection.tla spec/SelectionGen.tla spec/SelectionTrace.tla spec/Search.tla props/c17.py",
